@@ -295,9 +295,9 @@ Theorem c01_instance_member_is_flushed_by_the_deadline cfg s h s' outs k g id :
                       In (freeze t b) all /\ a_id b = id /\ gr_deadline g <= t.
 Proof. exact (member_is_flushed_by_the_deadline cfg s h s' outs k g id). Qed.
 
-(* partial: for an alert that joins a group while a flush is in flight only the per-group clauses are lifted
-   ([c01_flush_must_end], then the next tick at the deadline armed by the running flush); the combined statement
-   "and the next batch lists it unless the ending flush deleted it as resolved-and-unmodified" is not stated here. *)
+(* an alert that joins a group while a flush is in flight: [c01_flush_must_end] bounds the running flush, the next tick
+   comes at the deadline it armed; the composed statement (incl. "unless the ending flush froze it as resolved") is the
+   in-flight case of flush_by in [c01_instance_bounded_response] below. *)
 
 (* the group's stores hold only alerts that were published and that the model routed there *)
 Theorem c01_instance_stored_alert_was_published_and_routed cfg t0 h s outs k g b :
